@@ -389,6 +389,10 @@ def snake_removal(self, left=False):
                     or not left_snake and diagram.offsets[cup] != wire
                 if not_yankable:
                     continue
+                outer, inner = (0, 1) if left_snake else (1, 0)
+                if diagram.boxes[cup].dom[outer:outer + 1]\
+                        != diagram.boxes[cap].cod[inner:inner + 1]:
+                    continue  # not a snake: the outer legs have unequal types
                 return cup, cap, obstructions, left_snake
         return None
 
